@@ -14,6 +14,7 @@ import subprocess
 
 from lib import common
 from lib import c13_gen as G
+from lib import c12_gen as G12          # shared fail-soft readers (parse_diags, build_dropping, unreadable_class)
 
 TRUSTED = [
     "Coq 8.16.1 kernel + vm_compute (coqc full .vo build); no axioms (Print Assumptions: closed)",
@@ -132,40 +133,70 @@ def run(tier, seed, replay):
     real_arms = {}
     real_ename = {}
     for c, resp in zip(cases, exp):
-        if "items" not in resp:
-            chk.violation("expander-rejects", {"case": c, "response": resp}, "the expander fails on %s: %s" %
-                          (G.enum_item(c, False), str(resp)[:200]))
-            continue
-        it0 = resp["items"][0]
-        want_self = G.ident_src(c["enum"]) + ("<N>" if c.get("generic") else "")
-        want_params = ["constN:usize"] if c.get("generic") else []
-        if strip_ws(it0["self_ty"]) != want_self or [strip_ws(x) for x in it0["params"]] != want_params:
-            chk.violation("enum-impl-header", {"case": c, "self_ty": it0["self_ty"], "params": it0["params"]},
-                          "the FromStr impl of %s is for `%s` with parameters %s" % (G.enum_item(c, False), it0["self_ty"], it0["params"]))
-        body = [m for m in it0["members"] if m["kind"] == "fn"][0]["body"]
-        arms = []
-        for m in ARM_RE.finditer(body):
-            arms.append((unescape(m.group(1)), None if m.group(2) is None else unescape(m.group(2)), m.group(4)))
-        real_arms[c["id"]] = sorted(arms, key=repr)
-        m = NEW_RE.search(body)
-        real_ename[c["id"]] = unescape(m.group(1)) if m else None
+        try:
+            items = resp.get("items") if isinstance(resp, dict) else None
+            if not isinstance(items, list) or not items or items[0].get("kind") != "impl":
+                cls, why = G12.unreadable_class(resp)
+                chk.violation(cls, {"case": c, "rust": G.enum_item(c), "response": str(resp)[:1500]}, "%s: %s" % (G.enum_item(c, False), why))
+                continue
+            it0 = items[0]
+            want_self = G.ident_src(c["enum"]) + ("<N>" if c.get("generic") else "")
+            want_params = ["constN:usize"] if c.get("generic") else []
+            if strip_ws(it0["self_ty"]) != want_self or [strip_ws(x) for x in it0["params"]] != want_params:
+                chk.violation("enum-impl-header", {"case": c, "rust": G.enum_item(c), "self_ty": it0["self_ty"], "params": it0["params"]},
+                              "the FromStr impl of %s is for `%s` with parameters %s" % (G.enum_item(c, False), it0["self_ty"], it0["params"]))
+            body = [m for m in it0["members"] if m["kind"] == "fn"][0]["body"]
+            arms = []
+            for m in ARM_RE.finditer(body):
+                arms.append((unescape(m.group(1)), None if m.group(2) is None else unescape(m.group(2)), m.group(4)))
+            real_arms[c["id"]] = sorted(arms, key=repr)
+            m = NEW_RE.search(body)
+            real_ename[c["id"]] = unescape(m.group(1)) if m else None
+        except Exception as e:          # a reader of real output must never abort the check
+            chk.violation("expander-output-unreadable", {"case": c, "rust": G.enum_item(c), "response": str(resp)[:1500]},
+                          "cannot read the expansion of %s: %s: %s" % (G.enum_item(c, False), type(e).__name__, e))
 
     # ---- 2. the real derive, compiled and run
-    main, files = G.crate_sources(cases, alphabets, maxlen, extras, newtypes, nt_inputs)
-    d = common.make_crate(CRATE, main, extra_files=files)
-    rc, out = common.cargo(d, ["build", "--message-format=short", "--quiet"])
-    if rc != 0:
-        errs = [l for l in out.splitlines() if "error" in l][:8]
-        raise common.BuildError("the generated C13 crate does not build:\n%s" % "\n".join(errs or [out[-2000:]]))
-    binp = os.path.join(common.rt_target_dir(), "debug", CRATE)
-    p = subprocess.run([binp], stdout=subprocess.PIPE, stderr=subprocess.PIPE, text=True, timeout=900)
-    common.cleanup_scratch(CRATE)
-    if p.returncode != 0:
-        raise common.BuildError("generated C13 program failed: rc=%s %s" % (p.returncode, p.stderr[-1500:]))
+    units = [("enum", c) for c in cases] + [("newtype", nt) for nt in newtypes]
+    unit_id = lambda u: u[1]["id"] if u[0] == "enum" else u[1][0]
+
+    def build(subset, control=False):
+        ec = [u[1] for u in subset if u[0] == "enum"]
+        nts = [u[1] for u in subset if u[0] == "newtype"]
+        main, files = G.crate_sources(ec, alphabets, maxlen, extras, nts, nt_inputs, control=control)
+        d = common.make_crate(CRATE + ("_ctl" if control else ""), main, extra_files=files)
+        return common.cargo(d, ["build", "--message-format=json", "--quiet"])
+
+    live_units, failed = G12.build_dropping(chk, units, unit_id, build, what="C13 crate")
+    if failed:
+        # control: the same types without the derive must compile, otherwise the generator is at fault
+        ctl = [u for u in units if unit_id(u) in failed]
+        rc, out = build(ctl, control=True)
+        common.cleanup_scratch(CRATE + "_ctl")
+        if rc != 0:
+            raise common.BuildError("generated C13 type(s) %s are rejected by rustc even without the derive:\n%s" %
+                                    (sorted(failed)[:5], str(G12.parse_diags(out, None))[:1500]))
+        for u in ctl:
+            src = G.enum_item(u[1]) if u[0] == "enum" else "#[derive(FromStr)] " + u[1][1]
+            diags = failed[unit_id(u)]
+            chk.violation("expansion-rejected", {"case": u[1] if u[0] == "enum" else None, "rust": src, "rustc": [(a, b) for a, b, _ in diags][:6],
+                                                 "expected": "the expansion compiles (rustc accepts the type itself)"},
+                          "FromStr expansion of a valid type does not compile: %s: %s" % (src.replace("\n", " "), "; ".join(str(b) for _, b, _ in diags[:2])))
+    cases_all = cases
+    cases = [u[1] for u in live_units if u[0] == "enum"]
+    newtypes_live = [u[1] for u in live_units if u[0] == "newtype"]
+    if not live_units:
+        chk.notes.append("no generated module compiled")
     outs = {}
-    for line in p.stdout.splitlines():
-        f = line.split("\t")
-        outs[f[0]] = dict(kv.partition("=")[::2] for kv in f[1:])
+    if live_units:
+        binp = os.path.join(common.rt_target_dir(), "debug", CRATE)
+        p = subprocess.run([binp], stdout=subprocess.PIPE, stderr=subprocess.PIPE, text=True, timeout=900)
+        if p.returncode != 0:
+            raise common.BuildError("generated C13 program failed: rc=%s %s" % (p.returncode, p.stderr[-1500:]))
+        for line in p.stdout.splitlines():
+            f = line.split("\t")
+            outs[f[0]] = dict(kv.partition("=")[::2] for kv in f[1:])
+    common.cleanup_scratch(CRATE)
     chk.log("real derive compiled and run")
 
     # ---- 3. the model on the same declarations and inputs
@@ -180,89 +211,101 @@ def run(tier, seed, replay):
     chk.log("model evaluated on %d enums" % len(coq_cases))
     n_tie = 0
     for c in cases:
-        cid = c["id"]
-        o = outs.get(cid)
-        if o is None:
-            raise common.BuildError("no output line for %s" % cid)
-        names = [v[1] for v in c["variants"]]           # the variants' names (a raw identifier's name has no `r#`)
-        alpha = alphabets[cid]
-        total = sum(len(alpha) ** n for n in range(maxlen + 1)) + len(extras[cid])
-        if int(o["total"]) != total:
-            raise common.BuildError("input enumeration differs between program and oracle for %s: %s vs %d" % (cid, o["total"], total))
-        hits, xhits = parse_hits(o["hits"]), parse_hits(o["xhits"])
-        # oracle: the documented rule, independently implemented
-        ref = G.Reference(names)
-        exp_hits = set()
-        for s in G.all_strings(alpha, maxlen):
-            i = ref.parse(s)
-            if i is not None:
-                exp_hits.add((s, i))
-        exp_x = set()
-        for s in extras[cid]:
-            i = G.reference_parse(names, s)
-            if i is not None:
-                exp_x.add((s, i))
-        nontrivial = len(names) >= 2 or any(v[0] for v in c["variants"])
-        chk.count(json.dumps(c, sort_keys=True), nontrivial)
-        chk.cov["evaluations"] += total - 1
-        diff = sorted((hits ^ exp_hits) | (xhits ^ exp_x), key=lambda x: (len(x[0]), x))
-        if diff or int(o["errs"]) != total - len(hits) - len(xhits):
-            rawc = any(v[0] for v in c["variants"])
-            cls = "raw-identifier-variant" if rawc and not (flags["key_unraw"] and flags["guard_unraw"]) else "enum-match-mismatch"
-            shown = []
-            for s, i in diff[:6]:
-                got = [j for (t, j) in (hits | xhits) if t == s]
-                want = [j for (t, j) in (exp_hits | exp_x) if t == s]
-                shown.append("%r -> %s (documented: %s)" % (s, "Ok(%s)" % names[got[0]] if got else "Err", "Ok(%s)" % names[want[0]] if want else "Err"))
-            chk.violation(cls, {"case": c, "input": diff[0][0] if diff else None, "rust": G.enum_item(c), "differences": shown},
-                          "%s: %s" % (G.enum_item(c, False), "; ".join(shown)))
-        # error message names the enum
-        msgs = [unhex(h) for h in o["msgs"].split(",") if h]
-        en_plain, en_shown = c["enum"][1], G.ident_src(c["enum"])
-        allowed = ["Invalid `%s` string representation" % en_plain, "Invalid `%s` string representation" % en_shown]
-        if int(o["errs"]) > 0 and (len(msgs) != 1 or msgs[0] not in allowed):
-            chk.violation("error-does-not-name-enum", {"case": c, "messages": msgs}, "rejections of %s display %r" % (en_shown, msgs[:3]))
-        elif msgs and en_plain != en_shown and msgs[0] == allowed[1]:
-            chk.notes.append("enum `%s`: the error message spells the type name with its raw prefix: %r" % (en_shown, msgs[0]))
+        try:
+            cid = c["id"]
+            o = outs.get(cid)
+            if o is None:
+                chk.violation("program-output-missing", {"case": c, "rust": G.enum_item(c)}, "the compiled program printed no line for %s" % cid)
+                continue
+            names = [v[1] for v in c["variants"]]           # the variants' names (a raw identifier's name has no `r#`)
+            alpha = alphabets[cid]
+            total = sum(len(alpha) ** n for n in range(maxlen + 1)) + len(extras[cid])
+            if int(o["total"]) != total:
+                raise common.BuildError("input enumeration differs between program and oracle for %s: %s vs %d" % (cid, o["total"], total))
+            hits, xhits = parse_hits(o["hits"]), parse_hits(o["xhits"])
+            # oracle: the documented rule, independently implemented
+            ref = G.Reference(names)
+            exp_hits = set()
+            for s in G.all_strings(alpha, maxlen):
+                i = ref.parse(s)
+                if i is not None:
+                    exp_hits.add((s, i))
+            exp_x = set()
+            for s in extras[cid]:
+                i = G.reference_parse(names, s)
+                if i is not None:
+                    exp_x.add((s, i))
+            nontrivial = len(names) >= 2 or any(v[0] for v in c["variants"])
+            chk.count(json.dumps(c, sort_keys=True), nontrivial)
+            chk.cov["evaluations"] += total - 1
+            diff = sorted((hits ^ exp_hits) | (xhits ^ exp_x), key=lambda x: (len(x[0]), x))
+            if diff or int(o["errs"]) != total - len(hits) - len(xhits):
+                rawc = any(v[0] for v in c["variants"])
+                cls = "raw-identifier-variant" if rawc and not (flags["key_unraw"] and flags["guard_unraw"]) else "enum-match-mismatch"
+                shown = []
+                for s, i in diff[:6]:
+                    got = [j for (t, j) in (hits | xhits) if t == s]
+                    want = [j for (t, j) in (exp_hits | exp_x) if t == s]
+                    shown.append("%r -> %s (documented: %s)" % (s, "Ok(%s)" % names[got[0]] if got else "Err", "Ok(%s)" % names[want[0]] if want else "Err"))
+                chk.violation(cls, {"case": c, "input": diff[0][0] if diff else None, "rust": G.enum_item(c), "differences": shown},
+                              "%s: %s" % (G.enum_item(c, False), "; ".join(shown)))
+            # error message names the enum
+            msgs = [unhex(h) for h in o["msgs"].split(",") if h]
+            en_plain, en_shown = c["enum"][1], G.ident_src(c["enum"])
+            allowed = ["Invalid `%s` string representation" % en_plain, "Invalid `%s` string representation" % en_shown]
+            if int(o["errs"]) > 0 and (len(msgs) != 1 or msgs[0] not in allowed):
+                chk.violation("error-does-not-name-enum", {"case": c, "messages": msgs}, "rejections of %s display %r" % (en_shown, msgs[:3]))
+            elif msgs and en_plain != en_shown and msgs[0] == allowed[1]:
+                chk.notes.append("enum `%s`: the error message spells the type name with its raw prefix: %r" % (en_shown, msgs[0]))
 
-        # tie: model vs expander (arms) and vs compiled derive (hits)
-        t = terms.get(cid)
-        if t is None:
-            chk.bump("oracle_only(no context-free lower instance)")
-            continue
-        m_arms, m_ename, m_hits, m_x = t
-        m_arms = sorted(((common.py_str(pat), None if g == "None" else common.py_str(g[1]), common.py_str(v)) for (pat, g, v) in m_arms), key=repr)
-        if cid in real_arms and m_arms != real_arms[cid]:
-            chk.violation("tie-model-arms", {"case": c, "model": m_arms, "code": real_arms[cid]},
-                          "model and expander disagree on the match arms of %s" % G.enum_item(c, False))
-        if cid in real_ename and common.py_str(m_ename) != real_ename[cid]:
-            chk.violation("tie-model-error-name", {"case": c, "model": common.py_str(m_ename), "code": real_ename[cid]},
-                          "model and expander disagree on the type name in the error")
-        if msgs and msgs[0] != "Invalid `%s` string representation" % common.py_str(m_ename):
-            chk.violation("tie-model-error-name", {"case": c, "model": common.py_str(m_ename), "program": msgs},
-                          "model and compiled derive disagree on the error message")
-        mh = set((common.py_str(s), i) for (s, i) in m_hits)
-        mx = set((common.py_str(s), i) for (s, i) in m_x)
-        rh = set((s, i) for (s, i) in hits if len(s) <= coq_maxlen)
-        if mh != rh or mx != xhits:
-            dd = sorted((mh ^ rh) | (mx ^ xhits))[:6]
-            chk.violation("tie-model-hits", {"case": c, "differences": dd},
-                          "model and compiled derive disagree on %s: %s" % (G.enum_item(c, False), dd))
-        n_tie += 1
-        chk.sample({"enum": G.enum_item(c, False), "alphabet": "".join(alpha), "inputs": total, "ok": sorted(hits)[:6]}, limit=8)
+            # tie: model vs expander (arms) and vs compiled derive (hits)
+            t = terms.get(cid)
+            if t is None:
+                chk.bump("oracle_only(no context-free lower instance)")
+                continue
+            m_arms, m_ename, m_hits, m_x = t
+            m_arms = sorted(((common.py_str(pat), None if g == "None" else common.py_str(g[1]), common.py_str(v)) for (pat, g, v) in m_arms), key=repr)
+            if cid in real_arms and m_arms != real_arms[cid]:
+                chk.violation("tie-model-arms", {"case": c, "model": m_arms, "code": real_arms[cid]},
+                              "model and expander disagree on the match arms of %s" % G.enum_item(c, False))
+            if cid in real_ename and common.py_str(m_ename) != real_ename[cid]:
+                chk.violation("tie-model-error-name", {"case": c, "model": common.py_str(m_ename), "code": real_ename[cid]},
+                              "model and expander disagree on the type name in the error")
+            if msgs and msgs[0] != "Invalid `%s` string representation" % common.py_str(m_ename):
+                chk.violation("tie-model-error-name", {"case": c, "model": common.py_str(m_ename), "program": msgs},
+                              "model and compiled derive disagree on the error message")
+            mh = set((common.py_str(s), i) for (s, i) in m_hits)
+            mx = set((common.py_str(s), i) for (s, i) in m_x)
+            rh = set((s, i) for (s, i) in hits if len(s) <= coq_maxlen)
+            if mh != rh or mx != xhits:
+                dd = sorted((mh ^ rh) | (mx ^ xhits))[:6]
+                chk.violation("tie-model-hits", {"case": c, "differences": dd},
+                              "model and compiled derive disagree on %s: %s" % (G.enum_item(c, False), dd))
+            n_tie += 1
+            chk.sample({"enum": G.enum_item(c, False), "alphabet": "".join(alpha), "inputs": total, "ok": sorted(hits)[:6]}, limit=8)
+        except common.BuildError:
+            raise
+        except Exception as e:      # a reader of real output must never abort the check
+            chk.violation("expander-output-unreadable", {"case": c, "rust": G.enum_item(c)},
+                          "cannot read the observation of %s: %s: %s" % (G.enum_item(c, False), type(e).__name__, e))
 
     chk.log("oracle and ties compared")
     # ---- 4. newtypes
     if newtypes:
-        nt_resp = exp[len(cases):len(cases) + len(newtypes)]
-        nn_resp = exp[len(cases) + len(newtypes):]
+        nt_resp = exp[len(cases_all):len(cases_all) + len(newtypes)]
+        nn_resp = exp[len(cases_all) + len(newtypes):]
         fields_expr = lambda fs: "[" + "; ".join("(%s, %s)" % ("None" if n is None else "Some " + common.coq_str(n), common.coq_str(ty)) for n, ty in fs) + "]"
         sterms = common.coq_eval(["Verif.C13.Model"], ["struct_expand %s" % fields_expr(nt[5]) for nt in newtypes] +
                                  ["struct_expand %s" % fields_expr(nn[2]) for nn in G.NOT_NEWTYPES], tag="c13b")
         for nt, resp, t in zip(newtypes, nt_resp, sterms[:len(newtypes)]):
+          try:
             cid = nt[0]
             chk.count(("newtype", cid), True)
             chk.bump("newtype")
+            if cid not in outs:
+                if nt in newtypes_live:
+                    chk.violation("program-output-missing", {"newtype": nt[1]}, "the compiled program printed no line for %s" % nt[1])
+                continue
             o = outs[cid]
             chk.cov["evaluations"] += len(nt_inputs) - 1
             bad = [unhex(h) for h in o["bad"].split(",") if h]
@@ -299,9 +342,13 @@ def run(tier, seed, replay):
                         chk.violation("tie-model-newtype", {"input": s, "model": want, "code": oks.get(s)},
                                       "struct_from(bool_parse) and the compiled `W(bool)` disagree on %r" % s)
                         break
+          except Exception as e:        # a reader of real output must never abort the check
+            chk.violation("expander-output-unreadable", {"newtype": nt[1], "response": str(resp)[:1500]},
+                          "cannot read the expansion / observation of %s: %s: %s" % (nt[1], type(e).__name__, e))
         for nn, resp, t in zip(G.NOT_NEWTYPES, nn_resp, sterms[len(newtypes):]):
             chk.count(("not-newtype", nn[0]), True)
-            rejected = "panic" in resp and "Only structs with one field" in resp["panic"].get("msg", "")
+            rejected = isinstance(resp, dict) and isinstance(resp.get("panic"), dict) and \
+                "Only structs with one field" in str(resp["panic"].get("msg", ""))
             if not rejected or t != "None":
                 chk.violation("tie-model-newtype", {"struct": nn[1], "response": resp, "model": t},
                               "a struct without exactly one field must be refused (model: %s, expander: %s)" % (t, str(resp)[:120]))
